@@ -128,4 +128,186 @@ theorem cstrView_abs {s : FStr} (hs : WF c s) : cstrView s = .ok (StdString.ofCS
   unfold cstrView abs
   rw [h1, bindR_ok, Mem.read_ok (by omega), ofCStr_take_of_nul _ _ hs.2.2, h3, List.drop_zero]
 
+/-! ### starts_with( ch), ends_with( ch) -/
+
+theorem startsWithCh_abs {s : FStr} (hs : WF c s) (ch : Byte) :
+    startsWithCh s ch = .ok (StdString.startsWith (abs s) [ch]) := by
+  have := hs.1; have := hs.2.1
+  unfold startsWithCh StdString.startsWith get1
+  split
+  · rename_i h
+    rw [List.getElem?_eq_getElem (by omega), bindR_ok]
+    congr 1
+    apply Bool.eq_iff_iff.mpr
+    rw [decide_eq_true_iff, isPrefixOf_iff_take]
+    unfold abs
+    rw [List.take_take]
+    have : min [ch].length s.len = 0 + 1 := by simp; omega
+    rw [this, List.take_succ_eq_append_getElem (by omega)]
+    simp
+  · rename_i h
+    have : s.len = 0 := by omega
+    unfold abs; rw [this]; simp
+
+theorem endsWithCh_abs {s : FStr} (hs : WF c s) (ch : Byte) :
+    endsWithCh s ch = .ok (StdString.endsWith (abs s) [ch]) := by
+  have := hs.1; have := hs.2.1
+  have hl := abs_length hs
+  unfold endsWithCh StdString.endsWith get1
+  split
+  · rename_i h
+    rw [List.getElem?_eq_getElem (by omega), bindR_ok]
+    congr 1
+    apply Bool.eq_iff_iff.mpr
+    rw [decide_eq_true_iff, isSuffix_iff_drop, hl]
+    unfold abs
+    rw [List.drop_take]
+    have : s.len - ([ch].length) = s.len - 1 := by simp
+    rw [this]
+    have : s.len - (s.len - 1) = 0 + 1 := by omega
+    rw [this, List.take_succ_eq_append_getElem (by rw [List.length_drop]; omega)]
+    simp
+  · rename_i h
+    have : s.len = 0 := by omega
+    unfold abs; rw [this]; simp
+
+/-! ### contains -/
+
+theorem findFrom_drop_step (pat x : List Nat) {idx : Nat} (h : idx < x.length) :
+    StdString.findFrom pat (x.drop idx) idx =
+      if pat.isPrefixOf (x.drop idx) then some idx else StdString.findFrom pat (x.drop (idx + 1)) (idx + 1) := by
+  rw [List.drop_eq_getElem_cons h]
+  rfl
+theorem findFrom_none_of_short (pat : List Nat) : ∀ (x : List Nat) (i : Nat), x.length < pat.length →
+    StdString.findFrom pat x i = none
+  | [], i, h => by
+    unfold StdString.findFrom
+    have : pat.isEmpty = false := by
+      cases pat with
+      | nil => simp at h
+      | cons _ _ => rfl
+    rw [this]; rfl
+  | y :: ys, i, h => by
+    unfold StdString.findFrom
+    have hp : pat.isPrefixOf (y :: ys) = false := by
+      apply Bool.eq_false_iff.mpr
+      intro hp
+      have := congrArg List.length ((isPrefixOf_iff_take _ _).mp hp)
+      rw [List.length_take] at this
+      omega
+    rw [hp]
+    simp only [Bool.false_eq_true, if_false]
+    exact findFrom_none_of_short pat ys (i + 1) (by simp at h; omega)
+
+theorem contains_eq (x pat : List Nat) :
+    StdString.contains x pat = (StdString.findFrom pat (x.drop 0) 0).isSome := by
+  unfold StdString.contains StdString.find
+  rw [if_neg (by omega)]
+
+theorem containsChLoop_abs {s : FStr} (hs : WF c s) (ch : Byte) (fuel : Nat) : ∀ (idx : Nat),
+    idx + fuel = s.len →
+    containsChLoop s ch fuel idx = .ok (StdString.findFrom [ch] ((abs s).drop idx) idx).isSome := by
+  have := hs.1; have := hs.2.1
+  have hl := abs_length hs
+  induction fuel with
+  | zero =>
+    intro idx h
+    rw [List.drop_eq_nil_of_le (by omega)]
+    rfl
+  | succ n ih =>
+    intro idx h
+    have hi : idx < (abs s).length := by omega
+    unfold containsChLoop get1
+    rw [List.getElem?_eq_getElem (by omega), bindR_ok, findFrom_drop_step _ _ hi,
+      List.drop_eq_getElem_cons hi]
+    have hg : (abs s)[idx] = s.buf[idx]'(by omega) := by simp only [abs, List.getElem_take]
+    rw [hg]
+    by_cases hx : s.buf[idx]'(by omega) = ch
+    · rw [if_pos hx, if_pos (by simp [List.isPrefixOf, hx])]
+      rfl
+    · rw [if_neg hx, if_neg (by simp [List.isPrefixOf]; exact fun h => hx h.symm)]
+      exact ih (idx + 1) (by omega)
+
+theorem containsCh_abs {s : FStr} (hs : WF c s) (ch : Byte) :
+    containsCh s ch = .ok (StdString.contains (abs s) [ch]) := by
+  unfold containsCh
+  rw [containsChLoop_abs hs ch s.len 0 (by omega), contains_eq]
+
+/-- the window of the text at `idx` matches the search string iff `memcmp` says so -/
+theorem window_match {s : FStr} (hs : WF c s) {a : List Byte} {n idx : Nat} (ha : n ≤ a.length)
+    (hi : idx + n ≤ s.len) :
+    (a.take n).isPrefixOf ((abs s).drop idx) = true ↔
+      cmpSign ((s.buf.drop idx).take n) ((a.drop 0).take n) = 0 := by
+  have := hs.1; have := hs.2.1
+  have hla : (a.take n).length = n := by rw [List.length_take]; omega
+  rw [isPrefixOf_iff_take, hla, List.drop_zero,
+    cmpSign_eq_zero _ _ (by rw [List.length_take, List.length_take, List.length_drop]; omega)]
+  unfold abs
+  rw [List.drop_take, List.take_take, Nat.min_eq_left (by omega)]
+
+/-- a match starts with the first character of the search string -/
+theorem window_first {x pat : List Nat} {idx : Nat} (hi : idx < x.length) (hp : 0 < pat.length)
+    (h : pat.isPrefixOf (x.drop idx) = true) : x[idx] = pat[0] := by
+  rw [List.drop_eq_getElem_cons hi] at h
+  cases pat with
+  | nil => simp at hp
+  | cons p ps =>
+    simp [List.isPrefixOf] at h
+    exact h.1.symm
+
+theorem containsLoop_abs {s : FStr} (hs : WF c s) {a : List Byte} {n : Nat} (ha : n ≤ a.length) (hn : 0 < n)
+    (hns : n ≤ s.len) (fuel : Nat) : ∀ (idx : Nat), idx + fuel = s.len - n + 1 →
+    containsLoop s a n fuel idx = .ok (StdString.findFrom (a.take n) ((abs s).drop idx) idx).isSome := by
+  have := hs.1; have := hs.2.1
+  have hl := abs_length hs
+  have hla : (a.take n).length = n := by rw [List.length_take]; omega
+  induction fuel with
+  | zero =>
+    intro idx h
+    rw [findFrom_none_of_short _ _ _ (by rw [List.length_drop, hla, hl]; omega)]
+    rfl
+  | succ m ih =>
+    intro idx h
+    have hi : idx < (abs s).length := by omega
+    have hwm := window_match hs ha (show idx + n ≤ s.len by omega)
+    unfold containsLoop get1
+    rw [List.getElem?_eq_getElem (show idx < s.buf.length by omega), bindR_ok,
+      List.getElem?_eq_getElem (show 0 < a.length by omega), bindR_ok, findFrom_drop_step _ _ hi]
+    by_cases hx : s.buf[idx]'(by omega) = a[0]'(by omega)
+    · rw [if_pos hx, memcmp_ok (by omega) (by omega), bindR_ok]
+      by_cases hr : cmpSign ((s.buf.drop idx).take n) ((a.drop 0).take n) = 0
+      · rw [if_pos hr, if_pos (hwm.mpr hr)]
+        rfl
+      · rw [if_neg hr, if_neg (fun h => hr (hwm.mp h))]
+        exact ih (idx + 1) (by omega)
+    · rw [if_neg hx]
+      have hnp : ¬ (a.take n).isPrefixOf ((abs s).drop idx) = true := by
+        intro hp
+        have := window_first hi (by omega) hp
+        apply hx
+        have e1 : (abs s)[idx] = s.buf[idx]'(by omega) := by simp only [abs, List.getElem_take]
+        have e2 : (a.take n)[0]'(by omega) = a[0]'(by omega) := by simp only [List.getElem_take]
+        rw [← e1, ← e2]; exact this
+      rw [if_neg hnp]
+      exact ih (idx + 1) (by omega)
+
+theorem containsImpl_abs {s : FStr} (hs : WF c s) {a : List Byte} {n : Nat} (ha : n ≤ a.length) (hn : 0 < n) :
+    containsImpl s a n = .ok (StdString.contains (abs s) (a.take n)) := by
+  have hl := abs_length hs
+  have hla : (a.take n).length = n := by rw [List.length_take]; omega
+  unfold containsImpl
+  by_cases h : n = 0 ∨ s.len = 0 ∨ n > s.len
+  · rw [if_pos h, contains_eq, findFrom_none_of_short _ _ _ (by rw [List.length_drop, hla, hl]; omega)]
+    rfl
+  · rw [if_neg h, containsLoop_abs hs ha hn (by omega) _ 0 (by omega), contains_eq]
+
+
+/-- the one argument where `contains` differs from `std::string::contains`: the empty search string
+    is reported as not contained -/
+theorem containsImpl_zero (s : FStr) (a : List Byte) :
+    containsImpl s a 0 = .ok false ∧ StdString.contains (abs s) (a.take 0) = true := by
+  refine ⟨by unfold containsImpl; rw [if_pos (Or.inl rfl)], ?_⟩
+  rw [contains_eq, List.take_zero, List.drop_zero]
+  cases abs s <;> rfl
+
 end CelmaVerif.FixedString
